@@ -353,6 +353,24 @@ impl<T: MetricVecBuilder> MetricVec<T> {
     }
 }
 
+#[cfg(prometheus_verif)]
+impl<T: MetricVecBuilder> MetricVec<T> {
+    /// Verification hook: the key under which a child is stored.
+    #[doc(hidden)]
+    pub fn verif_key<V: AsRef<str> + std::fmt::Debug>(&self, vals: &[V]) -> Result<u64> {
+        self.v.hash_label_values(vals)
+    }
+
+    /// Verification hook: address of the children lock and number of children.
+    #[doc(hidden)]
+    pub fn verif_children(&self) -> (usize, usize) {
+        (
+            &self.v.children as *const _ as *const u8 as usize,
+            self.v.children.read().len(),
+        )
+    }
+}
+
 impl<T: MetricVecBuilder> Collector for MetricVec<T> {
     fn desc(&self) -> Vec<&Desc> {
         vec![&self.v.desc]
